@@ -8,7 +8,9 @@ EXPLANATION = ("Static rules over quinn-proto MIR: (a) each receive-side limit h
                "receive buffer evicts in a loop until the new datagram fits; (c) connection credit is returned only by the four legitimate callers of "
                "add_read_credits with the stated amounts; MAX_STREAM_DATA bookkeeping only from write_control_frames; (d) local_max_data / sent_max_* / "
                "receive_window_shrink_debt store idioms; (e) transport errors from the receive path propagate through `?`; (f) ingest()/reset() are checked against "
-               "(self.data_recvd, self.local_max_data), forward them to credit_consumed_by, and every accepting path adds the new bytes to data_recvd. The numeric bound "
+               "(self.data_recvd, self.local_max_data), forward them to credit_consumed_by, and every accepting path adds the new bytes to data_recvd; (g) credit once per "
+               "consumed byte: the set of delivered offsets of an unordered Assembler is born containing exactly 0..bytes_read and every buffered chunk, is consulted for "
+               "the whole arriving frame before anything is buffered in unordered mode, and has no other writers. The numeric bound "
                "'buffered <= window' is NOT decided.")
 RULE = "rule instances = (rule, site) pairs over MIR branches / stores / call sites; non-trivial = bound to at least one real site"
 SS = 'StreamsState'
@@ -246,9 +248,11 @@ def rule_c(ctx):
                   'stop() credits something other than exactly Recv::stop()s read_credits: ' + _outline(a))
     ctx.floor('c', 'stop_credit_sites', len(st.calls_to('StreamsState::add_read_credits')), 1)
     rs = ctx.pfn('Recv::stop')
-    rd = [x for _, x in ret_descs(F, rs)]
-    ok = any(D.has_field(x, 'end') and D.has_call(x, 'Assembler::bytes_read') for x in rd)
-    ctx.check(ok, 'c', 'discarded_is_end_minus_read', rs, rs.where(), 'end - bytes_read', 'Recv::stop no longer returns end - bytes_read')
+    # what stop() discards: for a live stream everything received and not read; for a stream whose RESET_STREAM has been
+    # received NOTHING (received_reset already credited final_offset - bytes_read when it dropped the data)
+    why = _stop_credit_shape(F, rs)
+    ctx.check(why is None, 'c', 'discarded_is_end_minus_read', rs, rs.where(), 'match self.state { Recv => self.end - bytes_read, ResetRecvd => 0 }',
+              'Recv::stop must return end - bytes_read for a stream in state Recv and exactly 0 for one in state ResetRecvd (its data was credited by the reset): %s' % why)
     rcv = ctx.pfn('StreamsState::received')
     for c in rcv.calls_to('StreamsState::add_read_credits'):
         a = arg_desc(F, c, 1)
@@ -274,6 +278,69 @@ def rule_c(ctx):
         ctx.check(why is None, 'c', 'reset_credit_base_selected_by_stopped', rr, c.where(), 'if stopped { end } else { bytes_read }',
                   'the already-credited base is not chosen by the stopped flag: %s' % why)
     ctx.floor('c', 'reset_credit_sites', len(rr.calls_to('StreamsState::add_read_credits')), 1)
+
+
+def _is_unread(d):
+    """d IS self.end - self.assembler.bytes_read()"""
+    return d[0] == 'bin' and d[1] == 'Sub' and _is_self_end(d[2]) and d[3][0] == 'call' and d[3][1] == 'Assembler::bytes_read' and \
+        len(d[3][3]) == 1 and d[3][3][0] == ('field', ('param', 1, 'self'), 'assembler')
+
+
+def _stop_credit_shape(F, body):
+    """None when the first component of every Ok(..) returned by Recv::stop is `self.end - bytes_read` on the Recv edge of a
+    test of self.state and the constant 0 on its ResetRecvd edge (and nothing else); else the reason"""
+    dsc = describer(F, body)
+    comps = []
+    for _, r in ret_descs(F, body):
+        for x in flat(r):
+            if x[0] == 'agg' and x[2].endswith('Result::Ok'):
+                pay = x[3][0] if x[3] else None
+                if not (pay and pay[0] == 'agg' and pay[1] == 'tuple' and len(pay[3]) == 2):
+                    return 'the Ok payload is not a (credits, ShouldTransmit) pair built in stop()'
+                comps.extend(flat(pay[3][0]))
+    kinds = {'unread' if _is_unread(x) else 'zero' if _is_zero(x) else 'other:' + D.render(x)[:60] for x in comps}
+    if kinds != {'unread', 'zero'}:
+        return 'the credited value is %s (expected exactly: end - bytes_read | 0)' % (' | '.join(sorted(kinds)) or 'absent')
+    # where each alternative is produced: the stores of the local that merges them, or (early-return form) the blocks that
+    # build Ok((<alternative>, ..))
+    prod = None
+    for l in range(1, len(body.locals)):
+        defs = body.defs_of(l)
+        if len(defs) == 2 and all(df[0] == 'stmt' for df in defs):
+            vals = [(dsc.rvalue(df[3], df[1], df[2], 0), df[1]) for df in defs]
+            if sorted('u' if _is_unread(v) else 'z' if _is_zero(v) else '?' for v, _ in vals) == ['u', 'z']:
+                prod = vals
+                break
+    if prod is None:
+        prod = []
+        for df in body.defs_of(0):
+            if df[0] != 'stmt':
+                continue
+            v = dsc.rvalue(df[3], df[1], df[2], 0)
+            if v[0] == 'agg' and v[2].endswith('Result::Ok') and v[3] and v[3][0][0] == 'agg' and v[3][0][3]:
+                prod.append((v[3][0][3][0], df[1]))
+        if not prod or not all(_is_unread(v) or _is_zero(v) for v, _ in prod):
+            return 'cannot locate where the two alternatives of the credited value are produced'
+    names = {v['name']: int(v['discr']) for v in F.adt('recv::RecvState')['variants']}
+    if set(names) != {'Recv', 'ResetRecvd'}:
+        return 'RecvState no longer has exactly the variants Recv and ResetRecvd: %s' % sorted(names)
+    tests = [br for br in branches(F, body) if br.desc[0] == 'discr' and _is_self_field(br.desc[1], 'state')]
+    if not tests:
+        return 'the credited value does not depend on a test of self.state'
+    live = body.live_blocks()
+    errs = []
+    for v, blk in prod:
+        if blk not in live:
+            continue
+        want, other = ('Recv', 'ResetRecvd') if _is_unread(v) else ('ResetRecvd', 'Recv')
+        good = False
+        for br in tests:
+            t_want, t_other = br.target(names[want]), br.target(names[other])
+            if t_want != t_other and edge_dominates(body, br.bb, t_want, blk) and blk not in body.reachable_from(t_other, avoid=[br.bb]):
+                good = True
+        if not good:
+            errs.append('`%s` is not confined to the %s edge of a test of self.state' % ('end - bytes_read' if _is_unread(v) else '0', want))
+    return '; '.join(errs) if errs else None
 
 
 def _is_ok_component(d, callee, idx):
@@ -546,10 +613,172 @@ def rule_f(ctx):
                   'a path accepts stream data without adding it to data_recvd: ' + (fmt_path(rcv, path) if path else 'no test of the ingest Result (`?` / match) found'))
 
 
+# --------------------------------------------------------------------------
+# rule g: credit at most once per consumed byte
+# --------------------------------------------------------------------------
+# Chunks::finalize credits every byte Assembler::read hands out (C06.c).  "Only for consumed data" therefore needs: a byte
+# range that was handed out once is never stored (and handed out, and credited) again.  In ordered mode the memory of what
+# was delivered is `bytes_read`; in unordered mode it is the `recvd` range set of State::Unordered.  The set has three
+# structural obligations: it is BORN containing everything already delivered or buffered (the ordered -> unordered switch),
+# every insertion in unordered mode CONSULTS-AND-UPDATES it before anything is buffered, and nobody else touches it.
+
+_SET_SHRINKERS = ('RangeSet::remove', 'RangeSet::subtract', 'RangeSet::pop_min', 'RangeSet::replace', 'RangeSet::clear',
+                  'mem::take', 'mem::replace', 'mem::swap')
+_SET_INSERT = ('RangeSet::insert', 'BTreeRangeSet::insert', 'ArrayRangeSet::insert')
+
+
+def _is_self_field(d, name):
+    return d[0] == 'field' and d[2] == name and _is_param(d[1], 'self')
+
+
+def _is_zero(d):
+    return d[0] == 'const' and str(d[2]) in ('0', '0_u64')
+
+
+def _range_parts(d):
+    """(start, end) of a `start..end` aggregate, else None"""
+    if d[0] == 'agg' and d[2].endswith('Range') and len(d[3]) == 2 and tuple(d[4]) == ('start', 'end'):
+        return d[3][0], d[3][1]
+    return None
+
+
+def _is_bytes_read(d):
+    return _is_self_field(d, 'bytes_read') or (d[0] == 'call' and d[1] == 'Assembler::bytes_read' and len(d[3]) == 1 and _is_param(d[3][0], 'self'))
+
+
+def _chunk_of_range(r):
+    """r IS X.offset .. X.offset + X.bytes.len() for one chunk X: returns X, else None"""
+    lo, hi = r
+    if not (lo[0] == 'field' and lo[2] == 'offset' and hi[0] == 'bin' and hi[1] == 'Add'):
+        return None
+    x = lo[1]
+    for a, b in ((hi[2], hi[3]), (hi[3], hi[2])):
+        if a == lo and b[0] == 'call' and b[1] == 'Bytes::len' and len(b[3]) == 1 and b[3][0] == ('field', x, 'bytes'):
+            return x
+    return None
+
+
+def _frame_range(r):
+    """r IS offset .. offset + bytes.len() over the parameters of Assembler::insert"""
+    lo, hi = r
+    if not (_is_param(lo, 'offset') and hi[0] == 'bin' and hi[1] == 'Add'):
+        return False
+    for a, b in ((hi[2], hi[3]), (hi[3], hi[2])):
+        if _is_param(a, 'offset') and b[0] == 'call' and b[1] == 'Bytes::len' and len(b[3]) == 1 and _is_param(b[3][0], 'bytes'):
+            return True
+    return False
+
+
+def _whole_iter(d):
+    """peel iterator constructors that visit every element (`.iter()`, `.iter_mut()`, `.into_iter()`); adaptors that can
+    drop elements (skip / take / filter / step_by ..) are not peeled"""
+    while d[0] == 'call' and len(d[3]) == 1 and _trait(d[1]).rsplit('::', 1)[-1] in ('iter', 'iter_mut', 'into_iter'):
+        d = d[3][0]
+    return d
+
+
+def rule_g(ctx):
+    F = ctx.facts
+    eo = ctx.pfn('Assembler::ensure_ordering')
+    ai = ctx.pfn('Assembler::insert')
+    who_may_write(ctx, 'g', 'delivered_set_writers', 'Assembler', 'state', ['Assembler::ensure_ordering', 'Assembler::insert'], floor=2,
+                  why='the set of already delivered offsets may only be created by the mode switch and extended by insert')
+    # ---- birth of the set: every construction of State::Unordered
+    cons = constructions(F, 'assembler::State', 'Unordered', crate='quinn_proto')
+    ctx.floor('g', 'unordered_switch_sites', len(cons), 1)
+    for c in cons:
+        body = c.body
+        root = F.root_of(body)
+        d = describer(F, body)
+        op = c.field_op('recvd')
+        the_set = d.operand(op, c.bb, c.idx) if op is not None else ('const', 'other', '<no recvd field>', '')
+        on_set = [x for x in body.calls() if x.args and not is_noise(x) and arg_desc(F, x, 0) == the_set]
+        shrink = [x for x in on_set if x.is_(*_SET_SHRINKERS)]
+        ctx.check(not shrink, 'g', 'delivered_set_born_complete/nothing_removed', root, c.where(), 'the new set only grows before it becomes the state',
+                  'ranges are taken out of the new delivered-set again before it is installed: %s' % [short(x.f) for x in shrink])
+        ins = [(x, _range_parts(arg_desc(F, x, 1))) for x in on_set if x.is_(*_SET_INSERT)]
+        ins = [(x, r) for x, r in ins if r is not None]
+        # (1) the consumed prefix: an insert of exactly 0..self.bytes_read into THIS set on every path to the construction
+        # (a path may skip it only over an edge on which bytes_read == 0 holds: the range is empty there)
+        zero = {(br.bb, tgt) for br, truth, tgt in guard_edges(ctx, body, lambda o, a, b: (o == 'Eq' and ((_is_bytes_read(a) and _is_zero(b)) or (_is_bytes_read(b) and _is_zero(a)))) or (o == 'Le' and _is_bytes_read(a) and _is_zero(b)))}
+        # (a call ends its block: an insert in the construction's own block would come after the aggregate is built)
+        pre = [x for x, r in ins if _is_zero(r[0]) and _is_bytes_read(r[1]) and x.bb != c.bb]
+        okp = bool(pre) and c.bb not in body.reachable_from(0, avoid=[x.bb for x in pre], avoid_edges=zero)
+        ctx.check(okp, 'g', 'delivered_set_born_complete/consumed_prefix', root, c.where(), 'insert(0..self.bytes_read) into the set on every path to State::Unordered{recvd}',
+                  'the delivered-set installed by the ordered->unordered switch does not always contain exactly the consumed prefix 0..self.bytes_read '
+                  '(inserts into it: %s): a retransmission of consumed data would be stored, delivered and credited a second time'
+                  % ([D.render(arg_desc(F, x, 1))[:60] for x, _ in ins] or 'none'))
+        # (2) every buffered chunk: offset..offset+len of EACH element of self.data
+        okc, whyc = False, 'no insert of chunk.offset..chunk.offset+chunk.bytes.len() into the set'
+        for x, r in ins:
+            ch = _chunk_of_range(r)
+            if ch is None:
+                continue
+            nxt = ch[1][1] if ch[0] == 'field' and ch[2] == '0' and ch[1][0] == 'variant' and ch[1][2] == 'Some' else None
+            if not (nxt and nxt[0] == 'call' and _trait(nxt[1]).endswith('Iterator::next') and len(nxt[3]) == 1 and _is_self_field(_whole_iter(nxt[3][0]), 'data')):
+                whyc = 'the inserted chunk is not the element of an iteration over the whole of self.data: %s' % D.render(ch)[:120]
+                continue
+            loops = [br for br in branches(F, body) if br.desc[0] == 'discr' and br.desc[1] == nxt]
+            for br in loops:
+                t_some, t_none = br.target(1), br.target(0)
+                if t_some == t_none:
+                    continue
+                if not edge_dominates(body, br.bb, t_none, c.bb):
+                    whyc = 'State::Unordered can be constructed before the iteration over self.data is exhausted'
+                elif not edge_dominates(body, br.bb, t_some, x.bb) or path_avoiding(body, [t_some], [br.bb, c.bb] + list(body.return_blocks()), [x.bb]) is not None:
+                    whyc = 'some elements of self.data are skipped without being inserted'
+                else:
+                    okc = True
+        # the same as an internal iteration: self.data.iter().for_each(|chunk| set.insert(chunk.offset..chunk.offset+len))
+        for fe in body.calls():
+            if okc or not (_trait(short(fe.f)).endswith('Iterator::for_each') and len(fe.args) == 2 and _is_self_field(_whole_iter(arg_desc(F, fe, 0)), 'data')):
+                continue
+            cl_d = arg_desc(F, fe, 1)
+            if not (cl_d[0] == 'agg' and cl_d[1] == 'closure' and the_set in cl_d[3] and fe.bb != c.bb and body.dominates(fe.bb, c.bb)):
+                continue
+            for cl in closure_args(F, fe):
+                for x in cl.calls():
+                    r = _range_parts(arg_desc(F, x, 1)) if x.is_(*_SET_INSERT) and len(x.args) == 2 and arg_desc(F, x, 0)[0] == 'upvar' else None
+                    ch = _chunk_of_range(r) if r else None
+                    if ch is not None and ch[0] == 'param' and path_avoiding(cl, [0], list(cl.return_blocks()), [x.bb]) is None:
+                        okc = True
+        ctx.check(okc, 'g', 'delivered_set_born_complete/buffered_chunks', root, c.where(), 'for chunk in self.data { insert(chunk.offset..chunk.offset+len) } exhausted before State::Unordered{recvd}',
+                  'the delivered-set installed by the ordered->unordered switch does not cover every buffered chunk: %s' % whyc)
+    # ---- unordered insertion consults and updates the set before buffering
+    rep = [x for x in ai.calls() if x.is_('RangeSet::replace')]
+    ctx.floor('g', 'delivered_set_consulted_sites', len(rep), 1)
+    pushes = [x.bb for x in ai.calls() if x.is_('BinaryHeap::push') and D.has_field(arg_desc(F, x, 0), 'data')]
+    ctx.floor('g', 'assembler_buffering_sites', len(pushes), 2)
+    for x in rep:
+        a0, r = arg_desc(F, x, 0), _range_parts(arg_desc(F, x, 1))
+        ok = a0[0] == 'field' and a0[2] == 'recvd' and a0[1][0] == 'variant' and a0[1][2] == 'Unordered' and _is_self_field(a0[1][1], 'state') and r is not None and _frame_range(r)
+        ctx.check(ok, 'g', 'unordered_insert_consults_delivered_set/whole_frame', ai, x.where(), 'recvd.replace(offset..offset+bytes.len())',
+                  'the delivered-set is not consulted for exactly the range of the arriving frame: %s(%s, %s)' % (short(x.f), D.render(a0)[:60], D.render(arg_desc(F, x, 1))[:100]))
+    sw = [br for br in branches(F, ai) if br.desc[0] == 'discr' and _is_self_field(br.desc[1], 'state')]
+    okb, whyb = False, 'no branch on the discriminant of self.state leads to the consultation'
+    for br in sw:
+        tg = {t for _, t in br.edges}
+        un = {t for t in tg if any(edge_dominates(ai, br.bb, t, x.bb) for x in rep)}
+        if len(un) != 1:
+            continue
+        other = {(br.bb, t) for t in tg - un}
+        # `self.state.is_ordered()` == true is the Ordered state as well
+        other |= {(b2.bb, t) for b2, truth, t in bool_edges(ctx, ai, lambda d: d[0] == 'call' and d[1] == 'State::is_ordered' and len(d[3]) == 1 and _is_self_field(d[3][0], 'state')) if truth}
+        leak = [p for p in pushes if p in ai.reachable_from(0, avoid=[x.bb for x in rep], avoid_edges=other)]
+        if leak:
+            whyb = 'in unordered mode data can be buffered (blocks %s) without the delivered-set having been consulted' % leak
+        else:
+            okb = True
+    ctx.check(okb, 'g', 'unordered_insert_consults_delivered_set/before_buffering', ai, ai.where(), 'on the Unordered edge every self.data.push is behind recvd.replace(..)', whyb)
+
+
 def run(ctx):
+    from rules.shared_rules import remote_stream_opened_only_within_limit
+    remote_stream_opened_only_within_limit(ctx, 'a', 'remote_stream_opened_only_within_limit')
     rule_f(ctx)
     rule_a(ctx)
     rule_b(ctx)
     rule_c(ctx)
     rule_d(ctx)
     rule_e(ctx)
+    rule_g(ctx)
